@@ -16,15 +16,16 @@ use serde_json::{json, Value as J};
 use std::cell::Cell;
 use std::sync::{Arc, Condvar, Mutex};
 
-pub const INPUTS: [&str; 8] = [
+pub const INPUTS: [&str; 9] = [
     "---\ntitle: T\ntime: 1h\nprep time: 5 min\n---\nMix @a{1%kg}.\n",
     ">> time: 10\n>> prep time: 5\n>> cook time: 3\nstep\n",
     ">> [mode]: components\n@a{1}\n>> [mode]: steps\nUse @a and @&a{2}.\n>> [duplicate]: ref\n",
     "Mix @flour{200%g} and #bowl.\n\nRest @&(~1)dough{} and @&flour{100%g} in #&bowl ~{1%h}.\n",
-    "@a{1/0} @|{}\n\nmore @b{2}\n",
+    ">> k: v\n@a{1/0} @|{}\n\nmore @b{2}\n",
     "Bake at 180 C for 20 min or 350 F.\n",
     "@milk{1 1/2%cup} @&milk{0.333%cup}\n",
     "= A\n> note é\n\nStep ~t{5%min}(x)\n== B ==\n@é{1}\n",
+    ">> prep time: 5\n>> cook time: 3\n>> time: 10\n>> tags: a, b\nstep @x{1} @&x{2}\n",
 ];
 
 fn parser_for(cfg: usize) -> CooklangParser {
@@ -34,33 +35,43 @@ fn parser_for(cfg: usize) -> CooklangParser {
     }
 }
 
-/// what one "call" observes: the full result of parse plus the metadata-only
-/// parse plus (when there is output) the scaled and converted recipe
-pub fn observe(p: &CooklangParser, input: &str) -> String {
-    let r = p.parse(input);
-    let mut s = exact_image(&r);
-    let m = p.parse_metadata(input);
-    s.push_str(&format!(" || meta={:?} {:?}", m.output().map(|m| serde_json::to_string(m).unwrap_or_default()), crate::oracles::diag_summary(m.report())));
-    if let Some(o) = r.into_output() {
-        let mut sc = o.scale(1.5, p.converter());
-        let errs = sc.convert(System::Imperial, p.converter()).len();
-        s.push_str(&format!(" || scaled+imperial({errs} errors)={}", serde_json::to_string(&sc).unwrap_or_default()));
+/// number of calls in the alphabet: every input x {parse, parse_metadata, parse + scale + convert}
+pub const CALLS: usize = INPUTS.len() * 3;
+
+/// what one call observes. Calls are kept separate (not bundled into one
+/// observation) so that state leaking from one kind of call into the next is
+/// not hidden by happening identically in the reference.
+pub fn observe(p: &CooklangParser, call: usize) -> String {
+    let input = INPUTS[call / 3];
+    match call % 3 {
+        0 => exact_image(&p.parse(input)),
+        1 => {
+            let m = p.parse_metadata(input);
+            format!("meta={:?} {:?}", m.output().map(|m| serde_json::to_string(m).unwrap_or_default()), m.report().iter().map(|d| format!("{:?}/{:?} {:?} labels={:?}", d.severity, d.stage, d.message, d.labels)).collect::<Vec<_>>())
+        }
+        _ => match p.parse(input).into_output() {
+            Some(o) => {
+                let mut sc = o.scale(1.5, p.converter());
+                let errs = sc.convert(System::Imperial, p.converter()).len();
+                format!("scaled+imperial({errs} errors)={}", serde_json::to_string(&sc).unwrap_or_default())
+            }
+            None => "no output".to_string(),
+        },
     }
-    s
 }
 
-/// entry point of the fresh subprocess: `engine c18-fresh <cfg> <input>`
-pub fn fresh_main(cfg: usize, input: usize) {
+/// entry point of the fresh subprocess: `engine c18-fresh <cfg> <call>`
+pub fn fresh_main(cfg: usize, call: usize) {
     let p = parser_for(cfg);
-    print!("{}", observe(&p, INPUTS[input]));
+    print!("{}", observe(&p, call));
 }
 
 fn fresh_reference() -> Result<Vec<Vec<String>>, String> {
     let exe = std::env::current_exe().map_err(|e| e.to_string())?;
-    let mut out = vec![vec![String::new(); INPUTS.len()]; 2];
+    let mut out = vec![vec![String::new(); CALLS]; 2];
     let mut handles = Vec::new();
     for cfg in 0..2 {
-        for i in 0..INPUTS.len() {
+        for i in 0..CALLS {
             let exe = exe.clone();
             handles.push((cfg, i, std::thread::spawn(move || std::process::Command::new(exe).args(["c18-fresh", &cfg.to_string(), &i.to_string()]).output())));
         }
@@ -86,7 +97,7 @@ fn diff_pos(a: &str, b: &str) -> String {
 // histories
 
 fn decode_history(mut idx: u64, max_len: u32) -> Vec<usize> {
-    let k = INPUTS.len() as u64;
+    let k = CALLS as u64;
     let mut len = 1u32;
     loop {
         let cnt = k.pow(len);
@@ -113,11 +124,11 @@ fn check_history(reference: &[Vec<String>], shared: &[CooklangParser], h: &[usiz
         for (which, p) in [("shared instance", &shared[cfg]), ("clone", &clone), ("new instance", &fresh)] {
             for (step, &i) in h.iter().enumerate() {
                 local.evaluations += 1;
-                let got = observe(p, INPUTS[i]);
+                let got = observe(p, i);
                 if got != reference[cfg][i] {
                     out.push(Violation::new(
                         "result depends on the history of the parser",
-                        format!("history {h:?} on the {which} (cfg {cfg}): call {step} (input {i}) differs from the fresh-process result; {}", diff_pos(&reference[cfg][i], &got)),
+                        format!("history {h:?} on the {which} (cfg {cfg}): call {step} (call {i} = input {} kind {}) differs from the fresh-process result; {}", i / 3, i % 3, diff_pos(&reference[cfg][i], &got)),
                         json!({"kind": "history", "history": h, "cfg": cfg}),
                     ));
                     return out;
@@ -271,7 +282,7 @@ fn run_schedule(parser: &Arc<CooklangParser>, bodies: &[Vec<usize>], prefix: &[u
             }
             let mut outs = vec![];
             for i in body {
-                let r = guarded(|| observe(&parser, INPUTS[i]));
+                let r = guarded(|| observe(&parser, i));
                 outs.push(r.unwrap_or_else(|m| format!("PANIC {m}")));
             }
             let mut g = s.m.lock().unwrap();
@@ -359,18 +370,22 @@ fn explore(h: &Harness, reference: &[Vec<String>]) -> (u64, u64, usize, Vec<Viol
 }
 
 fn harnesses(tier: Tier) -> Vec<Harness> {
+    // a call is input * 3 + kind (0 parse, 1 parse_metadata, 2 parse + scale + convert)
+    let p = |i: usize| i * 3;
+    let m = |i: usize| i * 3 + 1;
+    let sc = |i: usize| i * 3 + 2;
     let mut v = vec![
-        Harness { name: "2 threads x 1 parse (references+intermediate | modes)", bodies: vec![vec![3], vec![2]], cfg: 0, bound: 2 },
-        Harness { name: "2 threads x 1 parse (front matter | parse error)", bodies: vec![vec![0], vec![4]], cfg: 0, bound: 2 },
-        Harness { name: "2 threads x 1 parse, canonical parser (sections | >> metadata)", bodies: vec![vec![7], vec![1]], cfg: 1, bound: 2 },
-        Harness { name: "2 threads x 2 parses", bodies: vec![vec![1, 5], vec![6, 3]], cfg: 0, bound: 1 },
-        Harness { name: "3 threads x 1 parse (fractions+scaling | inline | same input twice)", bodies: vec![vec![6], vec![5], vec![6]], cfg: 0, bound: 1 },
+        Harness { name: "2 threads x 1 parse (references+intermediate | modes)", bodies: vec![vec![p(3)], vec![p(2)]], cfg: 0, bound: 2 },
+        Harness { name: "2 threads x 1 parse (front matter | metadata + parse error)", bodies: vec![vec![p(0)], vec![p(4)]], cfg: 0, bound: 2 },
+        Harness { name: "2 threads x 1 parse, canonical parser (sections | >> metadata)", bodies: vec![vec![p(7)], vec![p(1)]], cfg: 1, bound: 2 },
+        Harness { name: "2 threads x 2 calls (parse, metadata-only | scale+convert, parse)", bodies: vec![vec![p(8), m(1)], vec![sc(6), p(3)]], cfg: 0, bound: 1 },
+        Harness { name: "3 threads x 1 call (fractions+scaling | inline | same input)", bodies: vec![vec![sc(6)], vec![p(5)], vec![sc(6)]], cfg: 0, bound: 1 },
     ];
     if tier == Tier::Thorough {
-        v.push(Harness { name: "2 threads x 1 parse, 3 preemptions", bodies: vec![vec![3], vec![2]], cfg: 0, bound: 3 });
-        v.push(Harness { name: "2 threads x 2 parses, 2 preemptions", bodies: vec![vec![1, 5], vec![6, 3]], cfg: 0, bound: 2 });
-        v.push(Harness { name: "3 threads x 1 parse, 2 preemptions", bodies: vec![vec![3], vec![2], vec![6]], cfg: 0, bound: 2 });
-        v.push(Harness { name: "2 threads same input", bodies: vec![vec![3], vec![3]], cfg: 0, bound: 2 });
+        v.push(Harness { name: "2 threads x 1 parse, 3 preemptions", bodies: vec![vec![p(3)], vec![p(2)]], cfg: 0, bound: 3 });
+        v.push(Harness { name: "2 threads x 2 calls, 2 preemptions", bodies: vec![vec![p(8), m(1)], vec![sc(6), p(3)]], cfg: 0, bound: 2 });
+        v.push(Harness { name: "3 threads x 1 parse, 2 preemptions", bodies: vec![vec![p(3)], vec![p(2)], vec![sc(6)]], cfg: 0, bound: 2 });
+        v.push(Harness { name: "2 threads same input", bodies: vec![vec![p(3)], vec![p(3)]], cfg: 0, bound: 2 });
     }
     v
 }
@@ -416,7 +431,7 @@ pub fn replay(case: &J) -> Vec<Violation> {
 
 pub fn run(tier: Tier) {
     let c = ctx();
-    c.set_rule("histories: every sequence of 1..=n calls over 8 inputs chosen to touch every piece of per-parse state (front matter, `>>` time-override bookkeeping, modes, duplicate mode, references, intermediate references, a parse-stage error that drains the iterator, inline quantities, fractions with scaling and conversion that force the lazily built fraction table) on one shared parser per configuration, repeated on a clone and on a new instance, all in one process; each call's complete observation (recipe JSON, ordered diagnostics with labels and hints, metadata-only parse, scaled+converted recipe) must equal the observation of a fresh subprocess whose first call it is; all ordered pairs of event-wise interleaved pull parsers; schedules: iterative context bounding over real threads sharing one parser, scheduling points at every token pulled and every event consumed (hook), all schedules with at most p preemptions; each thread's observations must equal the fresh-process reference; non-trivial = every history / schedule; distinct = distinct histories and schedules");
+    c.set_rule("histories: every sequence of 1..=n calls (parse, parse_metadata, parse+scale+convert) over 9 inputs chosen to touch every piece of per-parse state (front matter, `>>` time-override bookkeeping, modes, duplicate mode, references, intermediate references, a parse-stage error that drains the iterator, inline quantities, fractions with scaling and conversion that force the lazily built fraction table) on one shared parser per configuration, repeated on a clone and on a new instance, all in one process; each call's complete observation (recipe JSON, ordered diagnostics with labels and hints, metadata-only parse, scaled+converted recipe) must equal the observation of a fresh subprocess whose first call it is; all ordered pairs of event-wise interleaved pull parsers; schedules: iterative context bounding over real threads sharing one parser, scheduling points at every token pulled and every event consumed (hook), all schedules with at most p preemptions; each thread's observations must equal the fresh-process reference; non-trivial = every history / schedule; distinct = distinct histories and schedules");
     let reference = match fresh_reference() {
         Ok(r) => Arc::new(r),
         Err(e) => {
@@ -427,7 +442,7 @@ pub fn run(tier: Tier) {
     c.part(json!({"inputs": INPUTS, "configurations": ["all extensions + bundled units", "canonical"]}));
     // histories: run on ONE thread so that process-wide and thread-local state accumulates
     let depth = tier.pick(3, 4);
-    let k = INPUTS.len() as u64;
+    let k = CALLS as u64;
     let total: u64 = (1..=depth).map(|l| k.pow(l)).sum();
     let shared = [parser_for(0), parser_for(1)];
     let mut local = Local::for_replay();
@@ -455,11 +470,11 @@ pub fn run(tier: Tier) {
         }
     }
     c.evaluations.fetch_add(local.evaluations, std::sync::atomic::Ordering::Relaxed);
-    c.nontrivial.fetch_add(total + 64, std::sync::atomic::Ordering::Relaxed);
+    c.nontrivial.fetch_add(total + (INPUTS.len() * INPUTS.len()) as u64, std::sync::atomic::Ordering::Relaxed);
     c.states.fetch_add(total, std::sync::atomic::Ordering::Relaxed);
     c.transitions.fetch_add(total, std::sync::atomic::Ordering::Relaxed);
     c.traces_validated.fetch_add(total, std::sync::atomic::Ordering::Relaxed);
-    c.part(json!({"part": "histories", "depth": depth, "histories": total, "interleaved_pull_parser_pairs": 64, "calls": local.evaluations, "wall_s": t0.elapsed().as_secs_f64()}));
+    c.part(json!({"part": "histories", "depth": depth, "histories": total, "interleaved_pull_parser_pairs": INPUTS.len() * INPUTS.len(), "calls": local.evaluations, "wall_s": t0.elapsed().as_secs_f64()}));
     if c.has_violations() {
         return;
     }
